@@ -346,7 +346,7 @@ func genSpec(h *vh.H) *Spec {
 
 	// entities
 	if h.Chance(1, 4) {
-		en := &Entity{Name: vh.Pick(h, []string{"Foo", "Order", "Acct", "Doc"})}
+		en := &Entity{Name: vh.Pick(h, []string{"Foo", "Order", "Acct", "Doc", "APIKey", "fooBar", "OrderX"})}
 		if s.object(en.Name) == nil && !clashes(s, en.Name) {
 			kn := uniqueFieldNames(h, 1+h.Rng.IntN(2))
 			for i, k := range kn {
